@@ -9,121 +9,21 @@ package chunkenc
 // histmodel shape alphabet, each under a set of storage configurations (plain / start-timestamp
 // capable chunk encodings, forced chunk cuts before any subset of the samples, appender re-opened
 // from the chunk before every append, the same histogram object re-appended). Oracle: histmodel
-// equality at every timestamp in eight read modes.
+// equality at every timestamp in five read passes.
 
 import (
 	"fmt"
 	"math"
 	"strings"
+	"sync"
 	"sync/atomic"
 	"testing"
 
+	"github.com/prometheus/prometheus/internal/verif/histalpha"
 	"github.com/prometheus/prometheus/internal/verif/histmodel"
 	"github.com/prometheus/prometheus/internal/verif/vx"
 	"github.com/prometheus/prometheus/model/histogram"
 )
-
-// ---------------------------------------------------------------------------
-// alphabet
-// ---------------------------------------------------------------------------
-
-type c11Atom struct {
-	Name  string
-	Float bool
-	I     *histogram.Histogram
-	F     *histogram.FloatHistogram
-	M     *histmodel.H
-}
-
-func c11CopyInt(h *histogram.Histogram) *histogram.Histogram {
-	c := *h
-	c.PositiveSpans = append([]histogram.Span(nil), h.PositiveSpans...)
-	c.NegativeSpans = append([]histogram.Span(nil), h.NegativeSpans...)
-	c.PositiveBuckets = append([]int64(nil), h.PositiveBuckets...)
-	c.NegativeBuckets = append([]int64(nil), h.NegativeBuckets...)
-	c.CustomValues = append([]float64(nil), h.CustomValues...)
-	return &c
-}
-
-func c11CopyFloat(h *histogram.FloatHistogram) *histogram.FloatHistogram {
-	c := *h
-	c.PositiveSpans = append([]histogram.Span(nil), h.PositiveSpans...)
-	c.NegativeSpans = append([]histogram.Span(nil), h.NegativeSpans...)
-	c.PositiveBuckets = append([]float64(nil), h.PositiveBuckets...)
-	c.NegativeBuckets = append([]float64(nil), h.NegativeBuckets...)
-	c.CustomValues = append([]float64(nil), h.CustomValues...)
-	return &c
-}
-
-func c11FindShape(shapes []histmodel.Shape, spec string) histmodel.Shape {
-	for _, s := range shapes {
-		if strings.HasPrefix(s.Name, spec+"/") {
-			return s
-		}
-	}
-	panic("c11: no shape " + spec)
-}
-
-// c11Derive builds the shape of specification spec in the given span layout; gauge=true turns it
-// into a gauge histogram (same buckets).
-func c11Derive(shapes []histmodel.Shape, spec string, layout int, gauge bool) histmodel.Shape {
-	m := c11FindShape(shapes, spec).Model.Copy()
-	name := fmt.Sprintf("%s/L%d", spec, layout)
-	if gauge {
-		m.Hint, m.Gauge = histogram.GaugeType, true
-		name = "g-" + name
-	}
-	sh := histmodel.Shape{Name: name, Layout: layout, Exact: true, Model: m, Float: m.ToFloat(layout)}
-	if m.Integral() {
-		sh.Int = m.ToInt(layout)
-	}
-	return sh
-}
-
-func c11Atoms(shapes []histmodel.Shape) []c11Atom {
-	var out []c11Atom
-	for _, s := range shapes {
-		if s.Int != nil {
-			out = append(out, c11Atom{Name: s.Name + "/int", I: s.Int, M: s.Model})
-		}
-		out = append(out, c11Atom{Name: s.Name + "/float", Float: true, F: s.Float, M: s.Model})
-	}
-	return out
-}
-
-// full alphabet: the core histmodel shapes plus three gauge variants that share schema and zero
-// threshold (so that gauge chunks are recoded both ways instead of being cut).
-func c11FullShapes() []histmodel.Shape {
-	shapes := histmodel.Shapes()
-	shapes = append(shapes,
-		c11Derive(shapes, "e04-s0-grown-front", 0, true),
-		c11Derive(shapes, "e05-s0-gap", 1, true),
-		c11Derive(shapes, "e02-s0-two", 2, true))
-	return shapes
-}
-
-// small alphabet (depth 4): shapes that collide with each other in every way the appenders
-// distinguish (forward inserts, backward inserts from stored empty buckets, front growth, gaps,
-// zero-threshold / schema / bucket-type change, explicit reset, stale, gauge both ways, custom
-// bounds).
-func c11SmallShapes() []histmodel.Shape {
-	s := histmodel.Shapes()
-	return []histmodel.Shape{
-		c11Derive(s, "e02-s0-two", 1, false),
-		c11Derive(s, "e03-s0-grown", 0, false),
-		c11Derive(s, "e04-s0-grown-front", 2, false),
-		c11Derive(s, "e05-s0-gap", 3, false),
-		c11Derive(s, "e01-zero-only", 0, false),
-		c11Derive(s, "e06-s0-both-sides", 0, false),
-		c11Derive(s, "e08-s1", 0, false),
-		c11Derive(s, "e29-stale", 0, false),
-		c11Derive(s, "e04-s0-grown-front", 0, true),
-		c11Derive(s, "e05-s0-gap", 1, true),
-		c11Derive(s, "e32-hint-reset", 0, false),
-		c11Derive(s, "c01", 1, false),
-		c11Derive(s, "c02-grown", 0, false),
-	}
-}
 
 // ---------------------------------------------------------------------------
 // a series at chunk level, driven exactly like memSeries.appendHistogram drives the appenders
@@ -217,72 +117,43 @@ func (s *c11Ser) append(float, forceCut, reopen bool, st, t int64, h *histogram.
 }
 
 // ---------------------------------------------------------------------------
-// oracle
+// reading back (the oracle is histalpha.Compare: histmodel equality at every timestamp)
 // ---------------------------------------------------------------------------
 
-type c11Exp struct {
-	t int64
-	m *histmodel.H
-}
+type (
+	c11Atom = histalpha.Atom
+	c11Exp  = histalpha.Exp
+	c11Got  = histalpha.Got
+)
 
-type c11Got struct {
-	t int64
-	m *histmodel.H
-}
+var c11Compare = histalpha.Compare
 
-// c11Compare is the property: same timestamps; a stale marker wherever one was appended; otherwise
-// a non-stale histogram semantically equal to the appended one.
-func c11Compare(exp []c11Exp, got []c11Got) (what, msg string) {
-	if len(exp) != len(got) {
-		return "sample-count", fmt.Sprintf("appended %d samples, read %d", len(exp), len(got))
-	}
-	for i := range exp {
-		if exp[i].t != got[i].t {
-			return "timestamp", fmt.Sprintf("sample %d: appended t=%d read t=%d", i, exp[i].t, got[i].t)
-		}
-		if exp[i].m.Stale {
-			if !got[i].m.Stale {
-				return "stale-marker-lost", fmt.Sprintf("sample %d (t=%d): appended a staleness marker, read %s", i, exp[i].t, got[i].m)
-			}
-			continue
-		}
-		if got[i].m.Stale {
-			return "spurious-stale-marker", fmt.Sprintf("sample %d (t=%d): appended %s, read a staleness marker", i, exp[i].t, exp[i].m)
-		}
-		if d := histmodel.Diff(exp[i].m, got[i].m, 0); d != "" {
-			return "histogram-mismatch", fmt.Sprintf("sample %d (t=%d): %s; appended %s read %s", i, exp[i].t, d, exp[i].m, got[i].m)
-		}
-	}
-	return "", ""
-}
+var c11Modes = []string{"next-nil", "reuse", "from-bytes-as-float", "seek", "reencode-appendonly"}
 
-var c11Modes = []string{"next-nil", "next-reuse", "as-float-nil", "as-float-reuse", "from-bytes", "seek", "reencode-appendonly", "mixed-nil"}
-
-// c11Read reads every sample of the chunk list in the given mode.
-func c11Read(chunks []Chunk, mode string, ts []int64) ([]c11Got, error) {
-	var got []c11Got
+// c11Read reads every sample of the chunk list in the given mode. Mode "reuse" returns two
+// decodings per integer sample (AtHistogram and AtFloatHistogram into recycled objects); the
+// caller compares both against the same expectation (dup=true entries repeat the position).
+func c11Read(chunks []Chunk, mode string, ts []int64) (got []c11Got, dup []c11Got, err error) {
 	switch mode {
-	case "next-nil", "as-float-nil", "from-bytes", "mixed-nil":
+	case "next-nil", "from-bytes-as-float":
 		// fresh iterator per chunk, fresh objects; everything is collected first and decoded
 		// only after all iterators are exhausted (returned objects must stay valid).
+		// from-bytes-as-float: the chunk is rebuilt from a copy of its bytes (as after m-mapping)
+		// and integer samples are read through AtFloatHistogram.
 		var ih []*histogram.Histogram
 		var fh []*histogram.FloatHistogram
 		var order []bool
 		var tt []int64
-		for ci, c := range chunks {
-			if mode == "from-bytes" {
+		for _, c := range chunks {
+			if mode == "from-bytes-as-float" {
 				b := append([]byte(nil), c.Bytes()...)
-				var err error
 				if c, err = FromData(c.Encoding(), b); err != nil {
-					return nil, err
+					return nil, nil, err
 				}
 			}
 			it := c.Iterator(nil)
-			k := 0
 			for vt := it.Next(); vt != ValNone; vt = it.Next() {
-				asFloat := vt == ValFloatHistogram || mode == "as-float-nil" || (mode == "mixed-nil" && (ci+k)%2 == 1)
-				k++
-				if asFloat {
+				if vt == ValFloatHistogram || mode == "from-bytes-as-float" {
 					t, h := it.AtFloatHistogram(nil)
 					fh, tt, order = append(fh, h), append(tt, t), append(order, true)
 				} else {
@@ -291,41 +162,45 @@ func c11Read(chunks []Chunk, mode string, ts []int64) ([]c11Got, error) {
 				}
 			}
 			if err := it.Err(); err != nil {
-				return nil, err
+				return nil, nil, err
 			}
 		}
 		for i, f := range order {
 			if f {
-				got = append(got, c11Got{tt[i], histmodel.FromFloat(fh[0])})
+				got = append(got, c11Got{T: tt[i], M: histmodel.FromFloat(fh[0])})
 				fh = fh[1:]
 			} else {
-				got = append(got, c11Got{tt[i], histmodel.FromInt(ih[0])})
+				got = append(got, c11Got{T: tt[i], M: histmodel.FromInt(ih[0])})
 				ih = ih[1:]
 			}
 		}
-	case "next-reuse", "as-float-reuse":
-		// one iterator recycled over all chunks, one histogram object recycled over all samples.
+	case "reuse":
+		// one iterator recycled over all chunks, one histogram object of each kind recycled over
+		// all samples; integer samples are read both ways at every position.
 		var it Iterator
 		hb, fb := &histogram.Histogram{}, &histogram.FloatHistogram{}
 		for _, c := range chunks {
 			it = c.Iterator(it)
 			for vt := it.Next(); vt != ValNone; vt = it.Next() {
-				if vt == ValFloatHistogram || mode == "as-float-reuse" {
-					var t int64
-					t, fb = it.AtFloatHistogram(fb)
-					got = append(got, c11Got{t, histmodel.FromFloat(fb)})
-				} else {
-					var t int64
+				var t int64
+				if vt == ValHistogram {
 					t, hb = it.AtHistogram(hb)
-					got = append(got, c11Got{t, histmodel.FromInt(hb)})
+					got = append(got, c11Got{T: t, M: histmodel.FromInt(hb)})
+				}
+				t, fb = it.AtFloatHistogram(fb)
+				if vt == ValHistogram {
+					dup = append(dup, c11Got{T: t, M: histmodel.FromFloat(fb)})
+				} else {
+					m := histmodel.FromFloat(fb)
+					got, dup = append(got, c11Got{T: t, M: m}), append(dup, c11Got{T: t, M: m})
 				}
 			}
 			if err := it.Err(); err != nil {
-				return nil, err
+				return nil, nil, err
 			}
 		}
 	case "seek":
-		// every sample reached by Seek(t) on a fresh iterator of the chunk that holds it.
+		// every sample reached by Seek(t) on a fresh iterator of the first chunk that has one.
 		for _, t := range ts {
 			found := false
 			for _, c := range chunks {
@@ -333,22 +208,22 @@ func c11Read(chunks []Chunk, mode string, ts []int64) ([]c11Got, error) {
 				vt := it.Seek(t)
 				if vt == ValNone {
 					if err := it.Err(); err != nil {
-						return nil, err
+						return nil, nil, err
 					}
 					continue
 				}
 				if vt == ValFloatHistogram {
 					tg, h := it.AtFloatHistogram(nil)
-					got = append(got, c11Got{tg, histmodel.FromFloat(h)})
+					got = append(got, c11Got{T: tg, M: histmodel.FromFloat(h)})
 				} else {
 					tg, h := it.AtHistogram(nil)
-					got = append(got, c11Got{tg, histmodel.FromInt(h)})
+					got = append(got, c11Got{T: tg, M: histmodel.FromInt(h)})
 				}
 				found = true
 				break
 			}
 			if !found {
-				return got, nil // sample-count mismatch is reported by the comparison
+				return got, nil, nil // the sample-count mismatch is reported by the comparison
 			}
 		}
 	case "reencode-appendonly":
@@ -358,11 +233,11 @@ func c11Read(chunks []Chunk, mode string, ts []int64) ([]c11Got, error) {
 		for _, c := range chunks {
 			nc, err := NewEmptyChunk(c.Encoding())
 			if err != nil {
-				return nil, err
+				return nil, nil, err
 			}
 			app, err := nc.Appender()
 			if err != nil {
-				return nil, err
+				return nil, nil, err
 			}
 			it := c.Iterator(nil)
 			for vt := it.Next(); vt != ValNone; vt = it.Next() {
@@ -375,11 +250,11 @@ func c11Read(chunks []Chunk, mode string, ts []int64) ([]c11Got, error) {
 					_, _, app, err = app.AppendHistogram(nil, st, t, h, true)
 				}
 				if err != nil {
-					return nil, fmt.Errorf("append-only re-encoding of a chunk's own samples refused: %w", err)
+					return nil, nil, fmt.Errorf("append-only re-encoding of a chunk's own samples refused: %w", err)
 				}
 			}
 			if err := it.Err(); err != nil {
-				return nil, err
+				return nil, nil, err
 			}
 			re = append(re, nc)
 		}
@@ -387,7 +262,7 @@ func c11Read(chunks []Chunk, mode string, ts []int64) ([]c11Got, error) {
 	default:
 		panic(mode)
 	}
-	return got, nil
+	return got, dup, nil
 }
 
 type c11Case struct {
@@ -422,12 +297,12 @@ func c11Run(r *vx.Run, alpha string, atoms []c11Atom, seq []int, cfg c11Cfg) str
 		var fh *histogram.FloatHistogram
 		if at.Float {
 			if fh = floats[ai]; fh == nil || !cfg.Shared {
-				fh = c11CopyFloat(at.F)
+				fh = histalpha.CopyFloat(at.F)
 				floats[ai] = fh
 			}
 		} else {
 			if h = ints[ai]; h == nil || !cfg.Shared {
-				h = c11CopyInt(at.I)
+				h = histalpha.CopyInt(at.I)
 				ints[ai] = h
 			}
 		}
@@ -448,34 +323,37 @@ func c11Run(r *vx.Run, alpha string, atoms []c11Atom, seq []int, cfg c11Cfg) str
 			r.Violation("chunkenc-append-error", fmt.Sprintf("appending sample %d of %v (cfg %+v): %v", i, rp().(c11Case).Seq, cfg, err), rp())
 			return "error"
 		}
-		exp = append(exp, c11Exp{c11Ts[i], at.M})
-		// the caller's histograms (all passed so far) remain semantically unchanged
-		for j, o := range objs {
-			var now *histmodel.H
-			var layoutChanged bool
-			if o.f != nil {
-				now = histmodel.FromFloat(o.f)
-				layoutChanged = len(o.f.PositiveBuckets) != len(atoms[o.a].F.PositiveBuckets) || len(o.f.NegativeBuckets) != len(atoms[o.a].F.NegativeBuckets)
-			} else {
-				now = histmodel.FromInt(o.h)
-				layoutChanged = len(o.h.PositiveBuckets) != len(atoms[o.a].I.PositiveBuckets) || len(o.h.NegativeBuckets) != len(atoms[o.a].I.NegativeBuckets)
-			}
-			callerChanged = callerChanged || layoutChanged
-			want := atoms[o.a].M
-			d := histmodel.Diff(want, now, 0)
-			if d == "" && want.Gauge != now.Gauge {
-				d = fmt.Sprintf("gauge %v vs %v", want.Gauge, now.Gauge)
-			}
-			if d != "" {
-				r.Violation("chunkenc-caller-histogram-changed", fmt.Sprintf("after appending sample %d of %v (cfg %+v) the caller's histogram passed as sample %d differs: %s; before %s after %s", i, rp().(c11Case).Seq, cfg, j, d, want, now), rp())
-				return "caller-changed"
-			}
+		exp = append(exp, c11Exp{T: c11Ts[i], M: at.M})
+	}
+	// The caller's histograms remain semantically unchanged. (Checked once, after the last append:
+	// every prefix of the sequence is a case of its own under the same configuration.)
+	for j, o := range objs {
+		var now *histmodel.H
+		var layoutChanged bool
+		if o.f != nil {
+			now = histmodel.FromFloat(o.f)
+			layoutChanged = len(o.f.PositiveBuckets) != len(atoms[o.a].F.PositiveBuckets) || len(o.f.NegativeBuckets) != len(atoms[o.a].F.NegativeBuckets)
+		} else {
+			now = histmodel.FromInt(o.h)
+			layoutChanged = len(o.h.PositiveBuckets) != len(atoms[o.a].I.PositiveBuckets) || len(o.h.NegativeBuckets) != len(atoms[o.a].I.NegativeBuckets)
+		}
+		callerChanged = callerChanged || layoutChanged
+		want := atoms[o.a].M
+		d := ""
+		if !histalpha.Same(want, now) {
+			d = histmodel.Diff(want, now, 0)
+		}
+		if d == "" && want.Gauge != now.Gauge {
+			d = fmt.Sprintf("gauge %v vs %v", want.Gauge, now.Gauge)
+		}
+		if d != "" {
+			r.Violation("chunkenc-caller-histogram-changed", fmt.Sprintf("after appending %v (cfg %+v, events %s) the caller's histogram passed as sample %d differs: %s; before %s after %s", rp().(c11Case).Seq, cfg, ser.events, j, d, want, now), rp())
 		}
 	}
 	for _, mode := range c11Modes {
-		var got []c11Got
+		var got, dup []c11Got
 		var err error
-		p, stack := vx.Guard(func() { got, err = c11Read(ser.chunks, mode, c11Ts[:len(seq)]) })
+		p, stack := vx.Guard(func() { got, dup, err = c11Read(ser.chunks, mode, c11Ts[:len(seq)]) })
 		if p != nil {
 			r.Violation("chunkenc-"+mode+"-panic", fmt.Sprintf("reading %v (cfg %+v, events %s) panicked: %v\n%s", rp().(c11Case).Seq, cfg, ser.events, p, c11Trim(stack)), rp())
 			continue
@@ -486,6 +364,11 @@ func c11Run(r *vx.Run, alpha string, atoms []c11Atom, seq []int, cfg c11Cfg) str
 		}
 		if what, msg := c11Compare(exp, got); what != "" {
 			r.Violation("chunkenc-"+mode+"-"+what, fmt.Sprintf("sequence %v (cfg %+v, events %s, %d chunks): %s", rp().(c11Case).Seq, cfg, ser.events, len(ser.chunks), msg), rp())
+		}
+		if dup != nil {
+			if what, msg := c11Compare(exp, dup); what != "" {
+				r.Violation("chunkenc-"+mode+"-as-float-"+what, fmt.Sprintf("sequence %v (cfg %+v, events %s, %d chunks): %s", rp().(c11Case).Seq, cfg, ser.events, len(ser.chunks), msg), rp())
+			}
 		}
 	}
 	ev := string(ser.events)
@@ -542,13 +425,13 @@ func c11SelfTest(t *testing.T, full []c11Atom) {
 	for _, a := range full {
 		var m *histmodel.H
 		if a.Float {
-			c := c11CopyFloat(a.F)
+			c := histalpha.CopyFloat(a.F)
 			m = histmodel.FromFloat(c)
 			if err := c.Validate(); err != nil && !a.M.Stale {
 				t.Fatalf("self-test: shape %s invalid: %v", a.Name, err)
 			}
 		} else {
-			c := c11CopyInt(a.I)
+			c := histalpha.CopyInt(a.I)
 			m = histmodel.FromInt(c)
 			if err := c.Validate(); err != nil && !a.M.Stale {
 				t.Fatalf("self-test: shape %s invalid: %v", a.Name, err)
@@ -571,7 +454,7 @@ func c11SelfTest(t *testing.T, full []c11Atom) {
 	if grown == nil || stale == nil {
 		t.Fatal("self-test: shapes missing")
 	}
-	bad := c11CopyInt(grown.I)
+	bad := histalpha.CopyInt(grown.I)
 	bad.PositiveBuckets[len(bad.PositiveBuckets)-1]-- // one observation lost in the last bucket
 	exp := []c11Exp{{1000, grown.M}, {1015, stale.M}}
 	ok := []c11Got{{1000, histmodel.FromInt(grown.I)}, {1015, histmodel.FromInt(&histogram.Histogram{Sum: math.Float64frombits(0x7ff0000000000002)})}}
@@ -582,8 +465,8 @@ func c11SelfTest(t *testing.T, full []c11Atom) {
 		"lost-bucket":   {{1000, histmodel.FromInt(bad)}, ok[1]},
 		"lost-stale":    {ok[0], {1015, histmodel.FromInt(&histogram.Histogram{Sum: math.NaN()})}},
 		"lost-sample":   {ok[0]},
-		"shifted-time":  {ok[0], {1016, ok[1].m}},
-		"spurious-stale": {{1000, ok[1].m}, ok[1]},
+		"shifted-time":  {ok[0], {1016, ok[1].M}},
+		"spurious-stale": {{1000, ok[1].M}, ok[1]},
 	} {
 		if what, _ := c11Compare(exp, g); what == "" {
 			t.Fatalf("self-test: oracle accepts the wrong answer %q", name)
@@ -594,8 +477,8 @@ func c11SelfTest(t *testing.T, full []c11Atom) {
 func TestVerifC11a(t *testing.T) {
 	r := vx.Start(t, "C11", "exploration")
 	defer r.Finish()
-	full := c11Atoms(c11FullShapes())
-	small := c11Atoms(c11SmallShapes())
+	full := histalpha.Atoms(histalpha.FullShapes())
+	small := histalpha.Atoms(histalpha.SmallShapes())
 	alphas := map[string][]c11Atom{"full": full, "small": small}
 
 	if r.Replay != "" {
@@ -622,7 +505,8 @@ func TestVerifC11a(t *testing.T) {
 	}
 	c11SelfTest(t, full)
 
-	var evals, seqs atomic.Int64
+	var evals, seqs, nRecode, nCut, nBack, nNontrivial atomic.Int64
+	var outcomes sync.Map
 	type phase struct {
 		alpha          string
 		minLen, maxLen int
@@ -636,16 +520,21 @@ func TestVerifC11a(t *testing.T) {
 			// every configuration on everything up to length 2 and on the small alphabet up to length 3
 			{"full", 1, 2, func(n int) []c11Cfg { return c11Cfgs(n, allST, true, both) }},
 			{"small", 3, 3, func(n int) []c11Cfg { return c11Cfgs(n, allST, true, both) }},
-			// length 3 over the full alphabet under three configurations
+			// length 3 over the full alphabet under the plain configuration (thorough: 16 configurations)
 			{"full", 3, 3, func(n int) []c11Cfg {
-				return []c11Cfg{{ST: 0, Mask: 0}, {ST: 2, Mask: 0, Reopen: true}, {ST: 0, Mask: 3}}
+				return []c11Cfg{{ST: 0, Mask: 0}}
 			}},
 		}
 	} else {
 		phases = []phase{
 			{"full", 1, 2, func(n int) []c11Cfg { return c11Cfgs(n, allST, true, both) }},
-			{"small", 3, 4, func(n int) []c11Cfg { return c11Cfgs(n, allST, true, both) }},
-			{"full", 3, 3, func(n int) []c11Cfg { return c11Cfgs(n, []int{0, 2}, true, both) }},
+			{"small", 3, 3, func(n int) []c11Cfg { return c11Cfgs(n, allST, true, both) }},
+			// length 3 over the full alphabet: every cut mask without re-opening, plus re-opening
+			// on uncut chunks, for the plain and one start-timestamp encoding
+			{"full", 3, 3, func(n int) []c11Cfg {
+				return append(c11Cfgs(n, []int{0, 2}, true, []bool{false}), c11Cfg{ST: 0, Reopen: true}, c11Cfg{ST: 2, Reopen: true})
+			}},
+			{"small", 4, 4, func(n int) []c11Cfg { return c11Cfgs(n, []int{0, 2}, true, both) }},
 		}
 	}
 	var phaseDesc []string
@@ -667,22 +556,24 @@ func TestVerifC11a(t *testing.T) {
 			nontrivial := false
 			for _, cfg := range cfgs {
 				ev := c11Run(r, ph.alpha, atoms, seq, cfg)
-				r.Distinct("distinct_outcomes", ev)
+				if _, seen := outcomes.LoadOrStore(ev, true); !seen {
+					r.Distinct("distinct_outcomes", ev)
+				}
 				if strings.ContainsAny(ev, "RNB") {
 					nontrivial = true
 				}
 				if strings.Contains(ev, "R") {
-					r.Count("cases_with_recode", 1)
+					nRecode.Add(1)
 				}
 				if strings.Contains(ev, "N") {
-					r.Count("cases_with_appender_cut", 1)
+					nCut.Add(1)
 				}
 				if strings.Contains(ev, "B") {
-					r.Count("cases_with_backward_insert_into_caller_histogram", 1)
+					nBack.Add(1)
 				}
 			}
 			if nontrivial {
-				r.Distinct("distinct_nontrivial", fmt.Sprint(ph.alpha, seq))
+				nNontrivial.Add(1)
 			}
 			evals.Add(int64(len(cfgs)))
 			k := seqs.Add(1)
@@ -704,10 +595,14 @@ func TestVerifC11a(t *testing.T) {
 		}
 	}
 	r.Count("evaluations", int(evals.Load()))
+	r.Count("distinct_nontrivial", int(nNontrivial.Load()))
+	r.Count("cases_with_recode", int(nRecode.Load()))
+	r.Count("cases_with_appender_cut", int(nCut.Load()))
+	r.Count("cases_with_backward_insert_into_caller_histogram", int(nBack.Load()))
 	r.Count("sequences_chunkenc", int(seqs.Load()))
 	r.Set("depth_completed_chunkenc", depthDone)
 	r.Set("phases_chunkenc", phaseDesc)
-	r.Set("rule", "part (a): every sequence of atoms (histmodel shape x int|float; full = core shapes + 3 gauge variants, small = 13 colliding shapes) up to the stated length, each run under every listed configuration (plain or start-timestamp chunk encoding with 3 ST patterns, forced chunk cut before any subset of samples, appender re-opened before every append, repeated atoms re-appending the same object) through AppendHistogram/AppendFloatHistogram with the head's new-chunk/recode/prevApp protocol, read back in 8 modes (fresh/recycled iterators and objects, int chunks read as float, FromData copy, Seek, append-only re-encoding) and compared with histmodel at every timestamp; the caller's objects are re-decoded after every append. A sequence is non-trivial when an appender recoded the chunk, cut a chunk itself, or inserted empty buckets into the caller's histogram. Parts (b)-(d): see rule_head.")
+	r.Set("rule", "part (a): every sequence of atoms (histmodel shape x int|float; full = core shapes + 3 gauge variants, small = 13 colliding shapes) up to the stated length, each run under every listed configuration (plain or start-timestamp chunk encoding with 3 ST patterns, forced chunk cut before any subset of samples, appender re-opened before every append, repeated atoms re-appending the same object) through AppendHistogram/AppendFloatHistogram with the head's new-chunk/recode/prevApp protocol, read back in 5 passes (fresh iterators and objects kept until the end; one recycled iterator and recycled objects with integer samples read both as int and as float; chunks rebuilt from a copy of their bytes and read as float; Seek to every timestamp; append-only re-encoding of every chunk) and compared with histmodel at every timestamp; the caller's objects are re-decoded after every append. distinct_nontrivial counts the enumerated sequences (distinct by construction; the two alphabets are disjoint name spaces) in which an appender recoded the chunk, cut a chunk itself, or inserted empty buckets into the caller's histogram. Parts (b)-(d): see rule_head.")
 	r.Assume("histmodel (decode + semantic equality) is the trusted reference; shapes are valid histograms by construction (Validate() checked in the self-test)")
 	if r.Get("cases_with_recode") == 0 || r.Get("cases_with_appender_cut") == 0 || r.Get("cases_with_backward_insert_into_caller_histogram") == 0 {
 		t.Fatalf("vacuous: recode=%d appender cuts=%d backward inserts=%d", r.Get("cases_with_recode"), r.Get("cases_with_appender_cut"), r.Get("cases_with_backward_insert_into_caller_histogram"))
